@@ -256,32 +256,41 @@ class C17:
         return {'viol': viol, 'out': [res['r1'], res['f1']], 'nt': len(hist) >= 2, 'tr': 1, 'sets': sets,
                 'cnt': {'calls_executed': 2 * len(hist) if kind == 'e' else len(hist)}}
 
+    def conformance_picks(self, seed):
+        """sequences of requests to a real --as-server process vs. each request alone in a fresh process"""
+        return [['real-server', 6, 7, 1], ['real-server', 4, 5, 0], ['real-server', 2, 10, 10]]
+
     def finish(self, ctx):
-        """conformance: sequences of requests to a real --as-server process vs. each request alone in a fresh process"""
-        from . import c14
         self.init_worker()
+        n = 0
+        viol = []
+        for case in self.conformance_picks(ctx['seed']):
+            k, vs = self.conformance_one(case)
+            n += k
+            viol += [(case, v) for v in vs]
+        st = ctx['stats']['sets']
+        closed = len(st.get('fingerprints', ())) == len(st.get('expanded_states', ()))
+        return {'conformance_replays': n, 'viol': viol, 'state_graph_closed': closed,
+                'state_graph': 'nodes = distinct fingerprints (see distinct.fingerprints), edges = distinct (fingerprint, call, fingerprint)'}
+
+    def conformance_one(self, case):
+        seq = case[1:]
         d = os.path.join(core.scratch_dir(), 'srv17')
         os.makedirs(d, exist_ok=True)
         for name in ('ymcdefs17.tex', 'ymcrepl17.txt'):
             with open(name) as f, open(os.path.join(d, name), 'w') as g:
                 g.write(f.read())
-        seqs = [[6, 7, 1], [4, 5, 0], [2, 10, 10]]
         viol = []
         n = 0
-        st = ctx['stats']['sets']
-        closed = len(st.get('fingerprints', ())) == len(st.get('expanded_states', ()))
-        for seq in seqs:
-            answers = {}
-            got = self.real_server_seq(seq, d)
-            for ri, val in zip(seq, got):
-                alone = self.real_server_seq([ri], d)[0]
-                n += 1
-                if val != alone:
-                    viol.append((['r'] + seq, {'clause': 'answer of a real --as-server process does not depend on earlier requests',
-                                              'sig': 'C17:real-server:' + REQUESTS[ri][0],
-                                              'detail': {'sequence': [REQUESTS[i][0] for i in seq], 'in_sequence': val, 'alone': alone}}))
-        return {'conformance_replays': n, 'viol': viol, 'state_graph_closed': closed,
-                'state_graph': 'nodes = distinct fingerprints (see distinct.fingerprints), edges = distinct (fingerprint, call, fingerprint)'}
+        got = self.real_server_seq(seq, d)
+        for ri, val in zip(seq, got):
+            alone = self.real_server_seq([ri], d)[0]
+            n += 1
+            if val != alone:
+                viol.append({'clause': 'answer of a real --as-server process does not depend on earlier requests',
+                             'sig': 'C17:real-server:' + REQUESTS[ri][0],
+                             'detail': {'sequence': [REQUESTS[i][0] for i in seq], 'in_sequence': val, 'alone': alone}})
+        return n, viol
 
     def real_server_seq(self, seq, d):
         import socket
@@ -325,6 +334,8 @@ class C17:
 
     def explain(self, case):
         kind, hist = case[0], case[1:]
+        if kind == 'real-server':
+            kind = 'r'
         if kind == 'e':
             return 'history of calls:\n' + '\n'.join('  %s: tex2txt(%r, %r, multi_language=%r)' % e for e in (EVENTS[i] for i in hist))
         return 'server %r, history of requests:\n' % SERVER_ARGV + '\n'.join('  %s: %r' % REQUESTS[i] for i in hist)
